@@ -788,6 +788,114 @@ fn threaded_probes(probes: &mut Vec<Probe>) {
     }) as Box<dyn Fn()>));
 }
 
+/// Orders around the 32 / 64 thresholds of any packed structure: three sparse shapes
+/// through the traversals, algorithms, operators and conversions.
+fn large_probes(probes: &mut Vec<Probe>) {
+    let orders: &[usize] = if level() == 0 { &[33] } else { &[33, 65] };
+    for &n in orders {
+        let vs: Vec<usize> = (0..n).collect();
+        let shapes: Vec<(&str, Vec<(usize, usize)>)> = vec![
+            ("path", (0..n - 1).map(|u| (u, u + 1)).collect()),
+            ("cycle", (0..n).flat_map(|u| [(u, (u + 1) % n), ((u + 1) % n, u)]).collect()),
+            ("hops of 32", (0..n).flat_map(|u| [(u, (u + 1) % n), (u, (u + 32) % n)]).filter(|&(a, b)| a != b).collect()),
+        ];
+        for (sname, arcs) in shapes {
+            macro_rules! rep {
+                ($t:ty, $tn:expr) => {{
+                    let d0 = std::rc::Rc::new(<$t as Build>::build(&vs, &arcs));
+                    let srcs: Vec<Vec<usize>> = vec![vec![0], vec![32], vec![n - 1], vec![n], vec![1000], vec![0, 32], vec![]];
+                    for s in srcs {
+                        let d = std::rc::Rc::clone(&d0);
+                        let ood = s.iter().any(|&x| x >= n);
+                        let nm = format!("{} order {n} {sname} :: all traversals from {s:?}", $tn);
+                        probes.extend(pw(ood, move || nm, || Box::new(move || {
+                            let d: &$t = &d;
+                            let _ = drain(Bfs::new(d, s.clone().into_iter()));
+                            let _ = BfsDist::new(d, s.clone().into_iter()).distances();
+                            let _ = BfsPred::new(d, s.clone().into_iter()).predecessors();
+                            let _ = BfsPred::new(d, s.clone().into_iter()).shortest_path(|v| v == 33 % n);
+                            let _ = BfsPred::new(d, s.clone().into_iter()).cycles().len();
+                            let _ = drain(Dfs::new(d, s.clone().into_iter()));
+                            let _ = drain(DfsDist::new(d, s.clone().into_iter()));
+                            let _ = DfsPred::new(d, s.clone().into_iter()).predecessors();
+                        }) as Box<dyn Fn()>));
+                    }
+                    let d = std::rc::Rc::clone(&d0);
+                    probes.extend(pw(false, || format!("{} order {n} {sname} :: queries, predicates, converse, Tarjan", $tn), || Box::new(move || {
+                        let d: &$t = &d;
+                        let _ = (d.size(), drain(d.arcs()), drain(d.degree_sequence()), drain(d.indegree_sequence()), drain(d.sinks()), drain(d.sources()));
+                        let _ = (d.is_complete(), d.is_regular(), d.is_semicomplete(), d.is_tournament(), d.is_balanced(), d.is_symmetric(), d.is_oriented());
+                        let _ = (d.has_arc(32, 33 % n), d.has_arc(n, 0), d.has_walk(&[0, 1, 2, n, 1000]), drain(d.in_neighbors(32)), d.indegree(n - 1));
+                        let _ = d.converse().size();
+                        let _ = Tarjan::new(d).components().len();
+                    }) as Box<dyn Fn()>));
+                }};
+            }
+            rep!(AL, "AL");
+            rep!(AX, "AX");
+            if level() > 0 {
+                rep!(AM, "AM");
+                rep!(EL, "EL");
+                rep!(WU, "WU");
+            }
+            macro_rules! unw {
+                ($t:ty, $tn:expr) => {{
+                    let d0 = std::rc::Rc::new(<$t as Build>::build(&vs, &arcs));
+                    for par in [1usize, 3] {
+                        let d = std::rc::Rc::clone(&d0);
+                        probes.extend(pw(false, || format!("{} order {n} {sname} :: complement, union, conversions [par {par}]", $tn), || Box::new(move || {
+                            let d: &$t = &d;
+                            let _ = set_parallelism(Parallelism::Fixed(par));
+                            let c = d.complement();
+                            let _ = (c.size(), d.union(&c).size(), c.union(d).is_complete(), d.union(&<$t>::cycle(5)).size());
+                            let _ = (AL::from(AX::from(AM::from(EL::from(AL::from((*d).clone()))))).size(), WU::from((*d).clone()).size());
+                        }) as Box<dyn Fn()>));
+                    }
+                }};
+            }
+            unw!(AL, "AL");
+            unw!(AX, "AX");
+            if level() > 0 {
+                unw!(AM, "AM");
+                unw!(EL, "EL");
+            }
+            let arcs2 = arcs.clone();
+            let vs2 = vs.clone();
+            probes.extend(pw(false, || format!("WU/WI order {n} {sname} :: Dijkstra, BellmanFordMoore, FloydWarshall, Johnson75 (sparse shapes)"), || Box::new(move || {
+                let wu = WU::build(&vs2, &arcs2);
+                let wi = WI::build(&vs2, &arcs2);
+                for s in [0usize, 32, n - 1] {
+                    let _ = DijkstraDist::new(&wu, std::iter::once(s)).distances();
+                    let _ = DijkstraPred::new(&wu, std::iter::once(s)).shortest_path(|v| v == 33 % n);
+                    let _ = BellmanFordMoore::new(&wi, s).distances().map(<[isize]>::len);
+                }
+                let _ = FloydWarshall::new(&wi).distances().is_connected();
+                if arcs2.len() < 2 * n {
+                    let m = AM::build(&vs2, &arcs2);
+                    let _ = Johnson75::new(&m).circuits().len();
+                }
+            }) as Box<dyn Fn()>));
+        }
+        let pr: Vec<Option<usize>> = (0..n).map(|i| if i + 32 < n { Some(i + 32) } else if i % 3 == 0 { None } else { Some(i - 1) }).collect();
+        probes.extend(pw(false, || format!("PredecessorTree of length {n} :: search from every start"), || Box::new(move || {
+            let t = PredecessorTree::from(pr.clone());
+            for s in 0..n {
+                let _ = t.search(s, 0);
+                let _ = t.search_by(s, |_, p| p.is_none());
+            }
+        }) as Box<dyn Fn()>));
+        probes.extend(pw(false, || format!("DistanceMatrix of order {n} :: fill and metrics"), || Box::new(move || {
+            let mut m = DistanceMatrix::new(n, usize::MAX);
+            for u in 0..n {
+                for v in 0..n {
+                    m[(u, v)] = (u * 3 + v) % 17;
+                }
+            }
+            let _ = (m.center(), *m.diameter(), drain(m.periphery()), m.is_connected());
+        }) as Box<dyn Fn()>));
+    }
+}
+
 /// Deliberately wrong in-harness code: every oracle must flag its canary,
 /// else the supervisor reports a machinery error. Never counted as coverage.
 fn canary_probes(probes: &mut Vec<Probe>) {
@@ -874,6 +982,7 @@ pub fn catalogue(full: bool, only: Option<usize>) -> Vec<Group> {
     group!("distance-matrix", |pr: &mut Vec<Probe>| distance_matrix_probes(pr));
     group!("overflow", |pr: &mut Vec<Probe>| overflow_probes(pr));
     group!("threaded", |pr: &mut Vec<Probe>| threaded_probes(pr));
+    group!("large", |pr: &mut Vec<Probe>| large_probes(pr));
     group!("canary", |pr: &mut Vec<Probe>| canary_probes(pr));
     groups
 }
